@@ -1,8 +1,9 @@
 #!/bin/bash
 # usage: tools/runall.sh [quick|thorough] [ids...]
+here=$(cd "$(dirname "$0")/.." && pwd)
 tier=${1:-quick}; shift
-ids=${@:-$(python3 -c "import json;print(' '.join(c['property_id'] for c in json.load(open('/verif/MANIFEST.json'))['checks']))")}
-cd /verif
+ids=${@:-$(python3 -c "import json;print(' '.join(c['property_id'] for c in json.load(open('$here/MANIFEST.json'))['checks']))")}
+cd "$here"
 for p in $ids; do
   s=$(date +%s)
   out=$(./check $p --tier $tier 2>&1); code=$?
